@@ -69,7 +69,7 @@ Proof.
     assert (K : (len acc =? nchar) = false).
     { apply Z.eqb_neq. unfold len in *. simpl in L. lia. }
     rewrite ?Z.add_0_l. rewrite K. rewrite IH.
-    + rewrite <- app_assoc. simpl. unfold st_of. simpl. rewrite E. reflexivity.
+    + rewrite <- app_assoc. simpl. unfold st_of. simpl. rewrite ?E. reflexivity.
     + exact M.
     + exact (symtext_cons_inv _ _ _ H).
     + rewrite len_app. unfold len in *. simpl in *. lia.
@@ -128,14 +128,14 @@ Qed.
 
 Definition numbered (done : matrix) : nrows := combine (seq 0 (length done)) (map snd done).
 
-Lemma row_get_numbered_none : forall done k i, (length done + k <= i)%nat ->
+Lemma row_get_numbered_none : forall (done : matrix) k i, (length done + k <= i)%nat ->
   row_get i (combine (seq k (length done)) (map snd done)) = None.
 Proof.
   induction done as [|r done IH]; intros k i H; simpl; [reflexivity|].
   destruct (Nat.eqb_spec i k); [simpl in H; lia|]. apply IH. simpl in H. lia.
 Qed.
 
-Lemma row_extend_numbered : forall done k i x, (length done + k <= i)%nat ->
+Lemma row_extend_numbered : forall (done : matrix) k i x, (length done + k <= i)%nat ->
   row_extend i x (combine (seq k (length done)) (map snd done))
   = combine (seq k (length done)) (map snd done) ++ [(i, x)].
 Proof.
@@ -158,10 +158,146 @@ Proof.
   - simpl in H. destruct (Nat.eqb i j); [discriminate|]. apply IH. exact H.
 Qed.
 
-Lemma numbered_snoc : forall done r, numbered (done ++ [r]) = numbered done ++ [(length done, snd r)].
+Lemma combine_app_eq : forall (A B : Type) (l1 l1' : list A) (l2 l2' : list B), length l1 = length l2 ->
+  combine (l1 ++ l1') (l2 ++ l2') = combine l1 l2 ++ combine l1' l2'.
+Proof.
+  induction l1 as [|x l1 IH]; intros l1' l2 l2' H; destruct l2 as [|y l2]; simpl in *; try discriminate; [reflexivity|].
+  rewrite IH by lia. reflexivity.
+Qed.
+
+Lemma numbered_snoc : forall (done : matrix) r, numbered (done ++ [r]) = numbered done ++ [(length done, snd r)].
 Proof.
   intros. unfold numbered. rewrite app_length. simpl. rewrite seq_app. rewrite map_app. simpl.
-  rewrite combine_app; [reflexivity|]. rewrite seq_length, map_length. reflexivity.
+  rewrite combine_app_eq; [reflexivity|]. rewrite seq_length, map_length. reflexivity.
+Qed.
+
+Lemma set_ns_id : forall st, set_ns st (x_ns st) = st.
+Proof. destruct st; reflexivity. Qed.
+
+Lemma matrix_loop_skip_eol : forall fuel st a nchar rows first toks, x_cap st = false ->
+  matrix_loop lower fuel st a nchar rows first (EOL :: toks) = matrix_loop lower fuel st a nchar rows first toks.
+Proof. intros. destruct fuel; [reflexivity|]. cbn [matrix_loop]. rewrite H. reflexivity. Qed.
+
+Definition label_token_ok (l : tok) : bool := negb (is_eol l) && negb (text_eqb l t_semi).
+
+Definition nrow_ok (a : alphabet) (nchar : Z) (r : text * list Z) : Prop :=
+  label_token_ok (fst r) = true /\ forallb (cell_ok a) (snd r) = true /\ len (snd r) = nchar.
+
+Lemma matrix_loop_rows : forall a nchar (simple : bool) todo done st fuel first rest,
+  default_match st -> x_interleave st = false -> x_cap st = false ->
+  1 <= nchar ->
+  (length todo < fuel)%nat ->
+  x_ns st = map fst done ++ (if simple then [] else map fst todo) ->
+  (simple = true -> exists n, x_ntax st = Some n /\ len done + len todo <= n) ->
+  (forall r, In r todo -> nrow_ok a nchar r) ->
+  NoDup (map (keyf (x_cs st)) (map fst (done ++ todo))) ->
+  matrix_loop lower fuel st a nchar (numbered done) first
+              (concat (map (row_tokens a) todo) ++ t_semi :: rest)
+  = Ok (set_ns st (map fst (done ++ todo)), a, numbered (done ++ todo), rest).
+Proof.
+  intros a nchar simple todo. induction todo as [|[l s] todo IH];
+    intros done st fuel first rest M I Cp N F Hns Hnt Hok Hnd.
+  - destruct fuel as [|f]; [simpl in F; lia|].
+    cbn [map concat app matrix_loop]. rewrite Cp. cbn [next_tok negb andb].
+    change (is_eol t_semi) with false. cbv iota. rewrite text_eqb_refl.
+    rewrite List.app_nil_r.
+    assert (E : map fst done = x_ns st) by (rewrite Hns; destruct simple; simpl; rewrite ?List.app_nil_r; reflexivity).
+    rewrite E. rewrite set_ns_id. reflexivity.
+  - destruct fuel as [|f]; [simpl in F; lia|].
+    destruct (Hok (l, s) (or_introl eq_refl)) as [Hl [Hc Hs]]. cbn [fst snd] in *.
+    unfold label_token_ok in Hl. apply andb_true_iff in Hl. destruct Hl as [Hl1 Hl2].
+    apply negb_true_iff in Hl1. apply negb_true_iff in Hl2.
+    destruct (symbols_as_string_ok a s Hc) as [T [ST LT]].
+    assert (Sne : s <> []) by (intro X; subst s; unfold len in Hs; simpl in Hs; lia).
+    assert (Tne : symbols_as_string a s <> []) by (intro X; rewrite X in LT; destruct s; [contradiction | discriminate]).
+    cbn [map concat]. unfold row_tokens at 1. cbn [fst snd].
+    rewrite (seq_tokens_plain a _ T Tne).
+    cbn [app]. cbn [matrix_loop]. rewrite Cp. cbn [next_tok negb andb]. rewrite Hl1. rewrite Hl2.
+    (* the taxon *)
+    assert (Hnew : ~ In (keyf (x_cs st) l) (map (keyf (x_cs st)) (map fst done))).
+    { rewrite !map_app in Hnd. simpl in Hnd. apply NoDup_remove_2 in Hnd.
+      intro X. apply Hnd. apply in_or_app. left. exact X. }
+    assert (GT : exists st1, get_taxon lower st l = Ok (st1, length done)
+                 /\ x_ns st1 = map fst (done ++ [(l, s)]) ++ (if simple then [] else map fst todo)
+                 /\ x_match st1 = x_match st /\ x_interleave st1 = x_interleave st /\ x_cap st1 = x_cap st
+                 /\ x_cs st1 = x_cs st /\ x_ntax st1 = x_ntax st
+                 /\ forall v, set_ns st1 v = set_ns st v).
+    { destruct simple.
+      - exists (set_ns st (x_ns st ++ [l])).
+        rewrite List.app_nil_r in Hns.
+        destruct (Hnt eq_refl) as [n [En Ln]].
+        split.
+        + unfold get_taxon. rewrite Hns. rewrite (find_taxon_none _ _ _ _ Hnew). rewrite En.
+          replace ((n =? 0) || (len (map fst done) <? n)) with true.
+          2:{ symmetry. apply orb_true_iff. right. apply Z.ltb_lt. unfold len in *. rewrite map_length. simpl in Ln. lia. }
+          rewrite map_length. reflexivity.
+        + cbn. rewrite Hns. rewrite map_app. simpl. rewrite List.app_nil_r. repeat split; reflexivity.
+      - exists st. split.
+        + unfold get_taxon. rewrite Hns. cbn [map]. rewrite (find_taxon_app _ _ _ _ _ Hnew). rewrite map_length. reflexivity.
+        + rewrite Hns. rewrite map_app. simpl. rewrite <- app_assoc. repeat split; reflexivity. }
+    destruct GT as [st1 [G [Ns1 [M1 [I1 [C1 [Cs1 [Nt1 Set1]]]]]]]].
+    rewrite G. cbn [bind].
+    assert (RE : row_extend (length done) [] (numbered done) = numbered done ++ [(length done, [])]) by (unfold numbered; apply row_extend_numbered; lia).
+    rewrite RE.
+    assert (RG : row_get (length done) (numbered done) = None) by (unfold numbered; apply row_get_numbered_none; lia).
+    rewrite (row_get_last _ _ _ RG). change (len (@nil Z)) with 0.
+    rewrite I1, I. cbv iota.
+    rewrite (read_states_row st1 a nchar _ (symbols_as_string a s) _).
+    + cbn [bind]. rewrite ST. rewrite I1, I. cbv iota. cbn [negb andb].
+      replace (0 + len s <? nchar) with false by (symmetry; apply Z.ltb_ge; lia).
+      rewrite (row_extend_last _ _ _ _ RG). cbn [app].
+      rewrite matrix_loop_skip_eol by (rewrite C1; exact Cp).
+      rewrite andb_false_r. pose proof (numbered_snoc done (l, s)) as NS. cbn [snd] in NS. rewrite <- NS.
+      rewrite (IH (done ++ [(l, s)]) st1 f).
+      * rewrite Set1. rewrite <- !app_assoc. reflexivity.
+      * unfold default_match. rewrite M1. exact M.
+      * rewrite I1. exact I.
+      * rewrite C1. exact Cp.
+      * exact N.
+      * simpl in F. lia.
+      * exact Ns1.
+      * intro Sm. destruct (Hnt Sm) as [n [En Ln]]. exists n. split; [rewrite Nt1; exact En|].
+        rewrite len_app. unfold len in *. simpl in *. lia.
+      * intros r Hr. apply Hok. right. exact Hr.
+      * rewrite Cs1. rewrite <- app_assoc. exact Hnd.
+    + unfold default_match. rewrite M1. exact M.
+    + rewrite I1. exact I.
+    + split; assumption.
+    + unfold len in *. rewrite LT. exact Hs.
+    + exact N.
 Qed.
 
 End Reader.
+
+(* ---- the whole block ---- *)
+
+Lemma all_digits_render : forall n, all_digits (render_nat n) = true.
+Proof.
+  intro n. unfold all_digits. pose proof (render_nat_nonnil n). pose proof (render_nat_digits n).
+  destruct (render_nat n); [contradiction | assumption].
+Qed.
+
+Lemma rows_tokens_length : forall a (m : matrix), (length m <= length (concat (map (row_tokens a) m)))%nat.
+Proof.
+  induction m as [|r m IH]; simpl; [lia|]. rewrite app_length.
+  assert (1 <= length (row_tokens a r))%nat by (unfold row_tokens; simpl; lia). lia.
+Qed.
+
+Lemma numbered_labels : forall (m : matrix) pre,
+  map (fun r : nat * list Z => (nth (fst r) (pre ++ map fst m) [], snd r))
+      (combine (seq (length pre) (length m)) (map snd m)) = m.
+Proof.
+  induction m as [|[l s] m IH]; intro pre; simpl; [reflexivity|].
+  rewrite (app_nth2 pre (l :: map fst m) [] (le_n (length pre))). rewrite Nat.sub_diag. simpl. f_equal.
+  specialize (IH (pre ++ [l])). rewrite app_length in IH. simpl in IH.
+  rewrite Nat.add_1_r in IH. rewrite <- app_assoc in IH. simpl in IH. exact IH.
+Qed.
+
+Definition fixed_dtype (dt : dtype) : bool :=
+  match dt with DtDna | DtRna | DtNucleotide | DtProtein => true | _ => false end.
+
+Arguments render_nat : simpl never.
+Arguments matrix_loop : simpl never.
+Arguments alphabet_of_dtype : simpl never.
+Arguments row_tokens : simpl never.
+
